@@ -441,6 +441,10 @@ def check(run, prog, tier):
     import rules.C08h as c08h
     c08h.check(run, prog, cg, callgraph.Effects(cg))
 
+    # ---- C08-k an object read out of a value is tested before it is called
+    run.rule("C08-k", "an object pointer read out of a value (sv.u.ob: array item, mapping value, efun argument) and handed to apply()/apply_low() is tested for O_DESTRUCTED between the load and the call: values keep pointing at destructed objects until LPC reads them, later efun arguments are evaluated after earlier ones were pushed, and apply() does not refuse destructed targets", 3)
+    c08h.check_loaded(run, prog)
+
     # ---- C08-i list walks do not follow links out of objects a callback may have unlinked
     run.rule("C08-i", "a loop that follows next_all / next_inv reads the link of its current object only while no LPC-running call has intervened since that object was last known alive and in place (O_DESTRUCTED test, environment test or fresh assignment); otherwise the successor must have been saved before the call", 3)
     c08h.check_walks(run, prog, cg)
